@@ -39,13 +39,13 @@ CHECKS = {
         engine="parsim",
         category="exploration",
         text="Seeded search over source fault plans (read error at read k, error after fill, out-of-range sample at block k, one or two "
-             "faults) crossed with schedules of the real multi-thread encoder. Oracles: the call returns (no deadlock, within a step budget "
-             "~45x the largest fault-free run), no task panics, the error equals the single-thread error for the same scripted source, and "
+             "faults of the same or of different kinds) crossed with schedules of the real multi-thread encoder. Oracles: the call returns (no deadlock, within a step budget "
+             "~45x the largest fault-free run), no task panics, the error is of the same kind as the single-thread error for the same scripted source, and "
              "no thread started by the call is alive when it returns or blocked forever afterwards; a separate fault-free batch requires Ok and "
              "byte equality (every frame once, in order).",
         design_ref="DESIGN.md sections 3.3-3.6, 5 (C06)",
         note="Trusted: shuttle runtime, channel model, live-thread counter in the seam (threads started through the library's thread::spawn). "
-             "Mixed-kind double faults accept either injected error kind (par mode reads ahead by design).",
+             "The error kind (EncodeError variant) must equal the single-thread kind for every plan, including plans that mix fault kinds; a different text within the same kind is counted, not judged.",
         technique="deterministic simulation with fault injection on the Source seam crossed with seeded schedules; termination, error-kind and thread-leak oracles; replayable minimised fault+schedule traces",
     ),
     "C03": dict(
